@@ -34,11 +34,11 @@ type SDOp struct {
 }
 
 type SDCase struct {
-	Datasets []string `json:"datasets"`
-	NIDs     int      `json:"nids"`
-	Ops      []SDOp   `json:"ops"`
+	Datasets []string   `json:"datasets"`
+	NIDs     int        `json:"nids"`
+	Ops      []SDOp     `json:"ops"`
 	Readers  []SDReader `json:"readers"`
-	Tags     []string `json:"tags"`
+	Tags     []string   `json:"tags"`
 }
 
 type SDReader struct {
@@ -151,16 +151,16 @@ func hasTag(tags []string, t string) bool {
 
 // sdRun holds the state of one differential run.
 type sdRun struct {
-	dir    string
-	ctx    *Ctx
-	id     string
-	c      SDCase
-	core   *hub.Core
-	m      *model.Hub
-	vocab  *gen.Vocab
-	opIdx  int
-	seen   map[string]bool // violations already reported (prop|class)
-	abort  bool
+	dir   string
+	ctx   *Ctx
+	id    string
+	c     SDCase
+	core  *hub.Core
+	m     *model.Hub
+	vocab *gen.Vocab
+	opIdx int
+	seen  map[string]bool // violations already reported (prop|class)
+	abort bool
 	// recorded time per model version is kept in rec[ds][seq]
 	rec map[string][]uint64
 	// C06
